@@ -1,6 +1,6 @@
 CONSTANTS
-MaxEvents = 7
-MaxNow = 6
+MaxEvents = 6
+MaxNow = 5
 MaxVol = 4
 Mutant = 0
 INIT Init
